@@ -144,7 +144,7 @@ func goTracking(repo, rel string) ([]string, error) {
 
 func lifecycleFacts(repo string) (interface{}, error) {
 	res := map[string]interface{}{}
-	for _, rel := range []string{"frontend/udp/frontend.go", "frontend/http/frontend.go"} {
+	for _, rel := range []string{"frontend/udp/frontend.go", "frontend/http/frontend.go", "storage/memory/peer_store.go", "storage/redis/peer_store.go"} {
 		g, err := goTracking(repo, rel)
 		if err != nil {
 			return nil, err
